@@ -94,7 +94,8 @@ Lemma ins_args_sent n p rk rv w c' w' : nc_ins_args n p rk rv w = Ok (c', w') ->
 Proof.
   unfold nc_ins_args. intros E.
   assert (G : forall kr vs w1 w2, nc_insert n (ins_p (ckind n) p) kr vs w1 = Ok (c', w2) -> ssame n c') by (intros; eapply insert_sent; eauto).
-  destruct (ckind n) eqn:K; try (destruct rv; eapply insert_sent; eauto; fail);
+  destruct (ckind n) eqn:K;
+    try (destruct rv; [eapply insert_sent; eauto | apply with_arg_inv in E; destruct E as (? & ? & ? & E); eapply insert_sent; eauto | eapply insert_sent; eauto]; fail);
     apply with_arg_inv in E; destruct E as (i & w1 & w2 & E); cbn [val_default] in E;
     try (eapply G; eauto; fail);
     apply with_arg_inv in E; destruct E as (j & w3 & w4 & E); eapply G; eauto.
